@@ -427,12 +427,157 @@ Section Ring.
   Qed.
 End Ring.
 
+(* ------------------------------------------------------------------------- *)
+(* tangent-plane projection: the reduced keys decide exactly like the literal ones *)
+
+Lemma c18_proj_dot n a b :
+  c18_dot (c18_proj n a) (c18_proj n b) = c18_dot n n * c18_pdot n a b.
+Proof.
+  destruct n as [[n1 n2] n3], a as [[a1 a2] a3], b as [[b1 b2] b3].
+  cbv [c18_pdot c18_proj c18_dot c18_vx c18_vy c18_vz fst snd]. ring.
+Qed.
+
+Lemma c18_cross_proj c n x :
+  c18_dot (c18_cross c n) (c18_proj n x) = c18_dot n n * c18_dot (c18_cross c n) x.
+Proof.
+  destruct n as [[n1 n2] n3], c as [[c1 c2] c3], x as [[x1 x2] x3].
+  cbv [c18_proj c18_cross c18_dot c18_vx c18_vy c18_vz fst snd]. ring.
+Qed.
+
+(* the projected vector is orthogonal to n, and unchanged (up to the factor N) when already so *)
+Lemma c18_proj_orth n x : c18_dot (c18_proj n x) n = 0.
+Proof.
+  destruct n as [[n1 n2] n3], x as [[x1 x2] x3].
+  cbv [c18_proj c18_dot c18_vx c18_vy c18_vz fst snd]. ring.
+Qed.
+
+Definition c18_scale (k : Z) (a : c18_key) : c18_key :=
+  {| c18_side := c18_side a; c18_s := k * c18_s a; c18_m := k * c18_m a; c18_zz := k * c18_zz a |}.
+
+Lemma c18_literal_scaled c0 n sub : 0 < c18_dot n n ->
+  c18_make_key_literal c0 n sub = c18_scale (c18_dot n n) (c18_make_key c0 n sub).
+Proof.
+  intros HN. unfold c18_make_key_literal, c18_make_key, c18_scale. cbn [c18_side c18_s c18_m c18_zz].
+  rewrite !c18_proj_dot, c18_cross_proj. f_equal.
+  unfold c18_qpos. set (x := c18_dot (c18_cross c0 n) (c18_sub sub n)).
+  destruct (0 <? x) eqn:E; destruct (0 <? c18_dot n n * x) eqn:E2; try reflexivity; nia.
+Qed.
+
+Lemma c18_ltb_scale k x y : 0 < k -> (k * x <? k * y) = (x <? y).
+Proof. intros. destruct (x <? y) eqn:E; destruct (k * x <? k * y) eqn:E2; try reflexivity; nia. Qed.
+
+Lemma c18_qneg_scale k x : 0 < k -> c18_qneg (k * x) = c18_qneg x.
+Proof. intros. unfold c18_qneg. replace 0 with (k * 0) at 1 by ring. apply c18_ltb_scale. assumption. Qed.
+
+Lemma c18_qpos_scale k x : 0 < k -> c18_qpos (k * x) = c18_qpos x.
+Proof. intros. unfold c18_qpos. replace 0 with (k * 0) at 1 by ring. apply c18_ltb_scale. assumption. Qed.
+
+Lemma c18_parallel_scale k a : 0 < k -> c18_parallel (c18_scale k a) = c18_parallel a.
+Proof.
+  intros Hk. unfold c18_parallel, c18_scale. cbn [c18_s c18_m c18_zz].
+  destruct (c18_s a * c18_s a =? c18_zz a * c18_m a) eqn:E;
+    destruct (k * c18_s a * (k * c18_s a) =? k * c18_zz a * (k * c18_m a)) eqn:E2; try reflexivity; nia.
+Qed.
+
+Lemma c18_cos_gt_scale k a b : 0 < k -> c18_cos_gt (c18_scale k a) (c18_scale k b) = c18_cos_gt a b.
+Proof.
+  intros Hk. unfold c18_cos_gt, c18_scale, c18_qlt. cbn [c18_s c18_m].
+  rewrite !c18_qneg_scale by assumption.
+  replace (k * c18_s a * (k * c18_s a) * (k * c18_m b)) with ((k * k * k) * (c18_s a * c18_s a * c18_m b)) by ring.
+  replace (k * c18_s b * (k * c18_s b) * (k * c18_m a)) with ((k * k * k) * (c18_s b * c18_s b * c18_m a)) by ring.
+  assert (Hk3 : 0 < k * k * k) by nia.
+  rewrite !c18_ltb_scale by assumption. reflexivity.
+Qed.
+
+Lemma c18_theta_scale k a : 0 < k ->
+  c18_theta_zero (c18_scale k a) = c18_theta_zero a /\ c18_theta_pi (c18_scale k a) = c18_theta_pi a.
+Proof.
+  intros Hk. unfold c18_theta_zero, c18_theta_pi. rewrite c18_parallel_scale by assumption.
+  change (c18_s (c18_scale k a)) with (k * c18_s a).
+  rewrite c18_qpos_scale, c18_qneg_scale by assumption. split; reflexivity.
+Qed.
+
+Lemma c18_angle_scale k a b : 0 < k ->
+  c18_angle_lt (c18_scale k a) (c18_scale k b) = c18_angle_lt a b /\
+  c18_angle_gt0 (c18_scale k a) = c18_angle_gt0 a /\
+  c18_angle_lt2pi (c18_scale k a) = c18_angle_lt2pi a.
+Proof.
+  intros Hk. destruct (c18_theta_scale k a Hk) as [Za Pa]. destruct (c18_theta_scale k b Hk) as [Zb Pb].
+  unfold c18_angle_lt, c18_angle_gt0, c18_angle_lt2pi.
+  rewrite !c18_cos_gt_scale, Za, Pa, Pb by assumption.
+  change (c18_side (c18_scale k a)) with (c18_side a). change (c18_side (c18_scale k b)) with (c18_side b).
+  repeat split; reflexivity.
+Qed.
+
+(* the selection loops commute with a key transformation that preserves the three comparisons *)
+Section SelectMap.
+  Context {K K' : Type}.
+  Variables (ltb : K -> K -> bool) (gt0 lt2pi : K -> bool).
+  Variables (ltb' : K' -> K' -> bool) (gt0' lt2pi' : K' -> bool).
+  Variable f : K -> K'.
+  Hypothesis Hlt : forall a b, ltb' (f a) (f b) = ltb a b.
+  Hypothesis Hg : forall a, gt0' (f a) = gt0 a.
+  Hypothesis Hl : forall a, lt2pi' (f a) = lt2pi a.
+  Let fp (p : nat * K) : nat * K' := (fst p, f (snd p)).
+
+  Lemma c18_scan_map cur : forall ks best,
+    c18_scan ltb' gt0' lt2pi' (option_map f cur) (map fp ks) (option_map fp best)
+    = option_map fp (c18_scan ltb gt0 lt2pi cur ks best).
+  Proof.
+    induction ks as [|[k a] ks IH]; intros best; [reflexivity|].
+    cbn [map c18_scan fp fst snd].
+    replace (match option_map f cur with None => gt0' (f a) | Some c => ltb' c (f a) end)
+      with (match cur with None => gt0 a | Some c => ltb c a end)
+      by (destruct cur; simpl; [rewrite Hlt|rewrite Hg]; reflexivity).
+    replace (match option_map fp best with None => lt2pi' (f a) | Some b => ltb' (f a) (snd b) end)
+      with (match best with None => lt2pi a | Some b => ltb a (snd b) end)
+      by (destruct best as [[kb b]|]; simpl; [rewrite Hlt|rewrite Hl]; reflexivity).
+    destruct (_ && _); [apply (IH (Some (k, a)))|apply IH].
+  Qed.
+
+  Lemma c18_select_map : forall fuel cur ks,
+    c18_select ltb' gt0' lt2pi' fuel (option_map f cur) (map fp ks) = c18_select ltb gt0 lt2pi fuel cur ks.
+  Proof.
+    induction fuel as [|n IH]; intros cur ks; [reflexivity|]. cbn [c18_select].
+    pose proof (c18_scan_map cur ks None) as Hs. cbn [option_map] in Hs. rewrite Hs.
+    destruct (c18_scan ltb gt0 lt2pi cur ks None) as [[k a]|]; cbn [option_map fp fst snd].
+    - f_equal. apply (IH (Some a)).
+    - f_equal. apply IH.
+  Qed.
+End SelectMap.
+
+Lemma c18_combine_map_r {X Y W} (g : Y -> W) (a : list X) (b : list Y) :
+  combine a (map g b) = map (fun p => (fst p, g (snd p))) (combine a b).
+Proof. revert b; induction a as [|x a IH]; intros [|y b]; simpl; auto. f_equal. apply IH. Qed.
+
+(* the executable model = the literal "project, then take norms and dot products" form *)
+Theorem c18_order_nodes_literal_eq temp_face nc dp max_edges :
+  0 < c18_dot nc nc ->
+  c18_order_nodes_literal temp_face nc dp max_edges = c18_order_nodes temp_face nc dp max_edges.
+Proof.
+  intros HN. destruct temp_face as [|f0 rest]; [reflexivity|].
+  unfold c18_order_nodes_literal, c18_order_nodes.
+  set (N := c18_dot nc nc) in *.
+  assert (E : map (fun f => c18_make_key_literal (c18_pos dp f0) nc (c18_pos dp f)) rest
+              = map (c18_scale N) (map (fun f => c18_make_key (c18_pos dp f0) nc (c18_pos dp f)) rest)).
+  { rewrite map_map. apply map_ext. intros f. apply c18_literal_scaled. exact HN. }
+  rewrite E, c18_combine_map_r.
+  rewrite (c18_select_map c18_angle_lt c18_angle_gt0 c18_angle_lt2pi c18_angle_lt c18_angle_gt0 c18_angle_lt2pi
+             (c18_scale N)
+             (fun a b => proj1 (c18_angle_scale N a b HN))
+             (fun a => proj1 (proj2 (c18_angle_scale N a a HN)))
+             (fun a => proj2 (proj2 (c18_angle_scale N a a HN)))
+             (length rest) None).
+  reflexivity.
+Qed.
+
 (* If the angle order agrees with the umbrella order u (the node's other faces listed
    counter-clockwise around the node, each sharing an edge with the next), the ring is f0 :: u.
-   MISSING for the full property (hence _partial): that the 3-D angle order of _order_nodes
-   coincides with the azimuth (umbrella) order around the node — a geometric fact about chords on
-   the sphere that fails for coarse faces of very different extent; the harness decides it for
-   every implementation output with an exact combinatorial/rational test. *)
+   MISSING for the full property (hence _partial): that the azimuth order of the face centres about
+   the node (what the tangent-plane angles of fix c8b893ff measure) coincides with the umbrella
+   order — true for convex faces smaller than a hemisphere (spherical convexity, not formalised),
+   false for faces with a reflex corner; the harness decides it for every implementation output
+   with an exact combinatorial/rational test. *)
 Theorem c18_ring_partial f0 rest u nc dp max_edges (rank : c18_key -> Z) :
   let mk := fun f => c18_make_key (c18_pos dp f0) nc (c18_pos dp f) in
   let keys := map mk rest in
@@ -594,7 +739,7 @@ Proof. vm_compute. reflexivity. Qed.
    octahedron, faces [0;3;4;7]; rank = position of the key in the counter-clockwise umbrella
    3, 7, 4 *)
 Definition c18_octa_rank (a : c18_key) : Z :=
-  if c18_side a then 3 else if 3 <=? c18_s a then 1 else 2.
+  if c18_side a then 3 else if 0 <=? c18_s a then 1 else 2.
 
 Example c18_ring_nonvacuous :
   let mk := fun f => c18_make_key (c18_pos c18_octa_centres 0) (3,0,0) (c18_pos c18_octa_centres f) in
